@@ -8,6 +8,7 @@ package main
 // payouts and one-time adjustments), C16 (bank rows).
 
 import (
+	"os"
 	"fmt"
 	"math/big"
 	"math/rand"
@@ -59,6 +60,7 @@ type ledgerMon struct {
 	chain  func() []*BlockSpec
 	mintHex, burnHex, oldBurnHex string
 	devs   map[string]uint64
+	seenDisc map[string]bool
 }
 
 func (m *ledgerMon) violate(sig, what string, h uint32) {
@@ -105,19 +107,39 @@ func (m *ledgerMon) check(h uint32, b *BlockSpec, prevDump, dump []string, prevW
 	}
 	// C04 / C17: history + scheduled adjustments replay to the balances
 	want := L.ReplayHistory(a, m.adjust)
-	if diff := CompareBalances(L.Bal, want); diff != "" {
+	if m.seenDisc == nil {
+		m.seenDisc = map[string]bool{}
+	}
+	if os.Getenv("VERIF_DEBUG") != "" {
+		say("h=%d discrepancies=%d first=%s", h, len(CompareBalancesAll(L.Bal, want)), CompareBalances(L.Bal, want))
+	}
+	for _, d := range CompareBalancesAll(L.Bal, want) {
+		// a discrepancy stays in the ledger for good: it is reported at the block that created it
+		key := fmt.Sprintf("%s|%d|%s", d.addr, d.t, d.delta)
+		if m.seenDisc[key] {
+			continue
+		}
+		m.seenDisc[key] = true
 		sig := "history-replay:balances-differ"
-		if strings.Contains(diff, m.oldBurnHex) {
+		switch d.addr {
+		case m.oldBurnHex:
 			sig = "history-replay:old-burn-address"
-		} else if strings.Contains(diff, m.burnHex) {
+		case m.burnHex:
 			sig = "history-replay:burn-address"
-		} else if strings.Contains(diff, m.mintHex) {
+		case m.mintHex:
 			sig = "history-replay:mint-address"
-		}
-		if sig == "history-replay:balances-differ" {
+		default:
 			sig += ":" + eraOf(a, h)
+			// attribute it to the known double payment of batches that mix a PEG request with
+			// other transactions, when such a batch of this address executed in this block
+			for _, bb := range L.B {
+				if bb.exec == int64(h) && h >= a.ConvLimit && L.MixedPegBatch(bb.hash) && len(L.T[bb.hash]) > 0 && L.T[bb.hash][0].from == d.addr {
+					sig += ":mixed-peg-request-batch"
+					break
+				}
+			}
 		}
-		m.violate(sig, diff, h)
+		m.violate(sig, d.what, h)
 	}
 	if !applied {
 		return
@@ -292,7 +314,11 @@ func (m *ledgerMon) check(h uint32, b *BlockSpec, prevDump, dump []string, prevW
 				x := new(big.Int).Mul(big.NewInt(t.fromAmount), new(big.Int).SetUint64(fr))
 				x.Div(x, new(big.Int).SetUint64(tr))
 				if x.Cmp(big.NewInt(t.toAmount)) != 0 {
-					m.violate("conversion:amount", fmt.Sprintf("conversion %s credited %d, floor(%d*%d/%d) = %v", bb.hash, t.toAmount, t.fromAmount, fr, tr, x), h)
+					sig := "conversion:amount"
+					if h >= a.ConvLimit && L.MixedPegBatch(bb.hash) {
+						sig += ":mixed-peg-request-batch"
+					}
+					m.violate(sig, fmt.Sprintf("conversion %s credited %d, floor(%d*%d/%d) = %v", bb.hash, t.toAmount, t.fromAmount, fr, tr, x), h)
 				}
 			}
 		}
@@ -329,8 +355,100 @@ func scenLedger(rep *Report, tier string, seed int64) {
 }
 
 func runLedgerChain(rep *Report, seed int64, variant int, tier string) {
+	runLedgerChainWith(rep, seed, variant, tier, nil, 292, nil)
+}
+
+// bankActs stretches the two bank eras (5,000 PEG per block, then the bank table) to 30 blocks each.
+func bankActs() Acts {
+	return Acts{Pegnet: 100, GradingV2: 102, TxConv: 104, PegPricing: 106, OneWayFCT: 108, ConvLimit: 112, PegFloat: 112, V4: 142, RCDE: 142,
+		V20: 172, DevRewards: 176, SprSig: 176, OneWaySmall: 180, V202: 180, V204: 184, V204Burn: 188, PIP10: 192}
+}
+
+// The `bank` scenario (C16, C17, C04): the ledger chain with long bank eras, ungraded blocks every
+// few heights, and in every bank-era block several conversions into PEG whose total is below,
+// around and far above the bank, some of them inside mixed batches.
+func scenBank(rep *Report, tier string, seed int64) {
+	chains := 1
+	if tier == "thorough" {
+		chains = 3
+	}
+	for c := 0; c < chains; c++ {
+		sd := seed + int64(c)*104729
+		acts := bankActs()
+		runLedgerChainWith(rep, sd, int(sd), tier, &acts, 176, func(w *World, b *BlockSpec) {
+			a := w.S.Acts
+			g := w.G
+			h := b.Height
+			if h < a.OneWayFCT || h >= a.V20 {
+				return
+			}
+			if g.R.Intn(4) == 0 {
+				b.OPR = nil // ungraded block: the next rated block walks a window of several heights
+				w.Rep.Count("bank:ungraded")
+			}
+			n := g.R.Intn(4)
+			for i := 0; i < n; i++ {
+				u := g.Users[g.R.Intn(len(g.Users))]
+				if u.IsE && h < a.RCDE {
+					continue
+				}
+				assets := w.NonZeroAssets(u.FA())
+				var src fat2.PTicker
+				for _, t := range assets {
+					if t != fat2.PTickerPEG && w.Balance(u.FA(), t) > 1000 {
+						src = t
+						break
+					}
+				}
+				if src == fat2.PTickerInvalid {
+					continue
+				}
+				bal := w.Balance(u.FA(), src)
+				amt := bal / uint64(2+g.R.Intn(20))
+				switch g.R.Intn(4) {
+				case 0:
+					amt = bal / 2 // large: usually above the bank on its own
+				case 1:
+					amt = uint64(1 + g.R.Intn(1000)) // dust
+				}
+				txs := []fat2.Transaction{Conversion(u.FA(), src, amt, fat2.PTickerPEG)}
+				shape := g.R.Intn(12)
+				if shape == 0 && h+2 != a.V20 {
+					// a transfer next to a request wedges every later rated block of the era (known
+					// finding): only tried where the era ends and the batch is re-validated away
+					shape = 2
+				}
+				if h+2 == a.V20 && i == 0 {
+					shape = 0
+				}
+				switch shape {
+				case 0: // mixed batch: a transfer and a request
+					txs = append([]fat2.Transaction{Transfer(u.FA(), src, fat2.AddressAmountTuple{Address: w.someAddress(), Amount: amt / 3})}, txs...)
+					w.Rep.Count("bank:mixed-transfer+request")
+				case 1: // mixed batch: an ordinary conversion and a request
+					to := fat2.PTickerUSD
+					if src == to {
+						to = fat2.PTickerEUR
+					}
+					txs = append([]fat2.Transaction{Conversion(u.FA(), src, amt/3, to)}, txs...)
+					w.Rep.Count("bank:mixed-conversion+request")
+				}
+				b.TX = append(b.TX, g.Batch(h, u, txs))
+				w.Rep.Count("bank:peg-request")
+			}
+		})
+	}
+	rep.Rule = "one evaluation = one block of a chain with 30-block bank eras (ungraded blocks, several PEG requests per block, under/over the bank) applied by the real daemon and the model, full dumps compared, ledger monitors (history replay = balances, bank rows, conversion amounts) on the implementation's dump; distinct = (era, block shape)"
+}
+
+func init() { scenarios["bank"] = scenBank }
+
+func runLedgerChainWith(rep *Report, seed int64, variant int, tier string, acts *Acts, last uint32, decorate func(w *World, b *BlockSpec)) {
 	g := NewGen(seed, 5, 2)
 	s := Setup{Acts: ledgerActs(g.R, variant), AvgPeriod: 8, SyncVersion: mainnetSyncVersion}
+	if acts != nil {
+		s.Acts = *acts
+	}
 	run, err := NewRun(s)
 	if err != nil {
 		rep.Note("infrastructure: %v", err)
@@ -353,12 +471,14 @@ func runLedgerChain(rep *Report, seed int64, variant int, tier string) {
 	oldBurn, _ := factomFA(node.GlobalOldBurnAddress)
 	newBurn, _ := factomFA(node.GlobalBurnAddress)
 	mintA, _ := factomFA(node.GlobalMintAddress)
-	last := uint32(292)
 	prevDump, _ := DumpDB(run.D.DBPath)
 	for h := s.Acts.Pegnet + 1; h <= last; h++ {
 		prevWinners := w.LastShortHashes(h)
 		top := w.TopPEG(100)
 		b := w.BuildBlock(h)
+		if decorate != nil {
+			decorate(w, b)
+		}
 		// send funds to the special addresses now and then, so the one-time events have work to do
 		if h > s.Acts.TxConv+3 && g.R.Intn(6) == 0 {
 			u := g.Users[g.R.Intn(len(g.Users))]
@@ -399,7 +519,7 @@ func runLedgerChain(rep *Report, seed int64, variant int, tier string) {
 		mon.check(h, b, prevDump, res.Dump, prevWinners, top, res.ImplOK)
 		if !res.ImplOK {
 			rep.Sample(map[string]interface{}{"height": h, "era": eraOf(s.Acts, h), "result": res.ImplClass, "msg": res.ImplMsg})
-			mon.violate("liveness:"+res.ImplClass+":"+eraOf(s.Acts, h), "block cannot be applied: "+res.ImplMsg, h)
+			mon.violate("liveness:"+res.ImplClass+":"+eraOf(s.Acts, h)+":"+msgSlug(res.ImplMsg), "block cannot be applied: "+res.ImplMsg, h)
 			if err := run.RecoverFrom(res); err != nil {
 				rep.Note("infrastructure: %v", err)
 				return
@@ -488,4 +608,24 @@ func pagingCheck(rep *Report, run *Run, g *Gen, s Setup, seed int64) {
 			return p.SelectTransactionHistoryActionsByHeight(hh, pegnet.HistoryQueryOptions{Offset: off})
 		})
 	}
+}
+
+// msgSlug keeps the distinguishing tail of an error message for a signature.
+func msgSlug(msg string) string {
+	if i := strings.LastIndex(msg, ": "); i >= 0 {
+		msg = msg[i+2:]
+	}
+	out := []byte{}
+	for _, c := range []byte(msg) {
+		switch {
+		case c >= 'a' && c <= 'z' || c >= 'A' && c <= 'Z':
+			out = append(out, c)
+		case len(out) > 0 && out[len(out)-1] != '-':
+			out = append(out, '-')
+		}
+		if len(out) >= 48 {
+			break
+		}
+	}
+	return strings.Trim(string(out), "-")
 }
